@@ -242,11 +242,16 @@ def c02_jobs(tier, seed):
 
     third = rnd.choice([(2, 0), (3, 1)])
 
+    cfg_calls = [0]
+
     def configs(cheap=False):
-        """(sink, repl) pairs: every sink kind and both replacement modes appear; quick trims the product for the
-        expensive encodings to UTF-16/no replacement, UTF-8/replacement and a seed-chosen one of &mut str / String"""
+        """(sink, repl) pairs: every sink kind and both replacement modes appear; quick trims the product for the expensive
+        encodings to one replacement mode per slice sink - alternating from call to call, so that sink kind and replacement mode are
+        not tied to each other across the table - and a seed-chosen one of &mut str / String"""
         if q:
-            return [(0, 0), (1, 1), (2, 0), (3, 1)] if cheap else [(0, 0), (1, 1), third]
+            a = cfg_calls[0] % 2
+            cfg_calls[0] += 1
+            return [(0, a), (1, 1 - a), (2, 1 - a), (3, a)] if cheap else [(0, a), (1, 1 - a), (third[0], (third[1] + a) % 2)]
         return [(s, r) for s in range(4) for r in (0, 1)]
     regimes = ("A", "B", "C") if q else ("A", "B", "C", "D")
     # single-byte family shares one code path: all 28 in regime C/UTF-16, three representatives in everything
@@ -760,7 +765,9 @@ def c08_jobs(tier, seed):
     for (enc, nmax, ranges, pres) in dec_shapes(tier, seed):
         for pre in pres:
             for (lo, hi) in ranges:
-                confs = [(0, 0), (1, 1)] + ([(2, 0), (3, 1)][k % 2:k % 2 + 1]) if q else [(s, r) for s in range(4) for r in (0, 1)]
+                # quick: one replacement mode per sink kind, alternating with the shape index (sink and mode are not tied to each other)
+                a = (k // 2) % 2
+                confs = [(0, a), (1, 1 - a)] + ([(2, 1 - a), (3, a)][k % 2:k % 2 + 1]) if q else [(s, r) for s in range(4) for r in (0, 1)]
                 k += 1
                 for (s, r) in confs:
                     mn = 2 if s == 0 else 4
@@ -771,7 +778,7 @@ def c08_jobs(tier, seed):
                                         label="decode %s n<=%d first=%02X..%02X prefix=%d sink=%s repl=%d bom=%d cap=%d" % (enc, nmax, lo, hi, pre, SINKS[s], r, bom, cap),
                                         need=[9999], weight=30, time_budget=900 if q else 3000))
     for i, (enc, lo, hi, n, bom) in enumerate(bom_shapes(tier)):
-        for (s, r) in ([(0, 0), (1, 1)] if q else [(s, r) for s in range(4) for r in (0, 1)]):
+        for (s, r) in ([(0, i % 2), (1, 1 - i % 2)] if q else [(s, r) for s in range(4) for r in (0, 1)]):
             mn = 2 if s == 0 else 4
             for cap in ((mn,) if q else (mn, mn + 1)):
                 jl.append(J("se_h_c08_dec", {0: E[enc], 1: 1, 2: n, 3: s, 4: r, 5: lo, 6: hi, 7: 0, 8: bom, 9: cap, 11: 1 if q else 2, 12: 1},
@@ -817,7 +824,7 @@ def c09_jobs(tier, seed):
             for (lo, hi) in ranges:
                 for s in ((k % 2,) if q else (0, 1, 2, 3)):
                     for cap in ((56, 2 if s == 0 else 4) if not q else ((56,) if k % 3 else (2 if s == 0 else 4,))):
-                        for bom in ((0,) if (q and k % 4) else (0, 2)):
+                        for bom in ((0,) if (q and (k // 2) % 3) else (0, 2)):        # (k // 2: independent of the sink, k % 2)
                             jl.append(J("se_h_c09_dec", {0: E[enc], 1: 0 if lo == 0 else 1, 2: nmax, 3: s, 5: lo, 6: hi, 7: pre, 8: bom, 9: cap, 11: 1 if q else 2},
                                         label="decode %s n<=%d first=%02X..%02X prefix=%d sink=%s bom=%d cap(replacing run)=%d" % (enc, nmax, lo, hi, pre, SINKS[s], bom, cap),
                                         need=[9999], weight=30, time_budget=900 if q else 3000))
@@ -1321,8 +1328,9 @@ def c18_jobs(tier, seed):
                     n1 = nmax                     # the shard of complete four-byte UTF-8 sequences
                 for (s, r) in ([(k % 2, (k // 2) % 2)] if q else [(s, r) for s in range(2) for r in (0, 1)]):
                     mn = 2 if s == 0 else 4
-                    jl.append(J("se_h_c18_dec", {0: E[enc], 1: 0 if lo == 0 else 1, 2: n1, 3: s, 4: r, 5: lo, 6: hi, 7: pre, 8: 0 if k % 3 else 2, 9: mn + k % 2, 11: 1},
-                                label="decode %s n<=%d first=%02X..%02X prefix=%d sink=%s repl=%d cap=%d, twin symbolic pre-fills" % (enc, n1, lo, hi, pre, SINKS[s], r, mn + k % 2),
+                    cap = mn + (k // 4) % 2          # (k // 4: independent of sink, k % 2, and replacement, (k // 2) % 2)
+                    jl.append(J("se_h_c18_dec", {0: E[enc], 1: 0 if lo == 0 else 1, 2: n1, 3: s, 4: r, 5: lo, 6: hi, 7: pre, 8: 0 if k % 3 else 2, 9: cap, 11: 1},
+                                label="decode %s n<=%d first=%02X..%02X prefix=%d sink=%s repl=%d cap=%d, twin symbolic pre-fills" % (enc, n1, lo, hi, pre, SINKS[s], r, cap),
                                 need=[9999], weight=30, time_budget=900 if q else 3000))
                 k += 1
     for i, (enc, lo, hi, n, bom) in enumerate(bom_shapes(tier)):
